@@ -90,6 +90,9 @@ Median(s) ==
 (* configuration helpers                                                   *)
 (***************************************************************************)
 TokOf(c, f) == c.fd[f].tok
+\* every configuration names all ids of FORD; an id that is not (yet) a feeder of the params is ABSENT
+ABSENT == [tok |-> "", start |-> 0, iv |-> 1, sr |-> 0, end |-> 0]
+Present(fd, f) == fd[f].tok # ""
 
 StatusOpen == 1
 StatusClosed == 2
@@ -331,7 +334,7 @@ Prepare(rounds, aggs, block, c) ==
   IF block < 1 THEN [rounds |-> rounds, aggs |-> aggs, new |-> <<>>] ELSE
   LET step(acc, f) ==
         LET fd == c.fd[f] IN
-        IF (fd.end > 0 /\ fd.end <= block) \/ fd.start > block THEN acc ELSE
+        IF ~Present(c.fd, f) \/ (fd.end > 0 /\ fd.end <= block) \/ fd.start > block THEN acc ELSE
         LET delta == block - fd.start
             left  == delta % fd.iv
             count == delta \div fd.iv
@@ -478,19 +481,58 @@ Recache(S) ==
          IN IF R0.panic THEN [st |-> S, err |-> "PANIC"]
             ELSE Ok([R1.A EXCEPT !.rounds = pr.rounds, !.aggs = pr.aggs])
 
-\* msg_server_update_params.go: UpdateParams restricted to "set the EndBlock of a token's (only) feeder";
-\* Params.UpdateTokenFeeder + Params.Validate, then SetParams and cs.AddCache(ItemP)
+\* msg_server_update_params.go: UpdateParams with one TokenFeeder in the message;
+\* Params.UpdateTokenFeeder (which always works on the LATEST feeder of the message's token) + Params.Validate,
+\* then SetParams and cs.AddCache(ItemP).  Two message shapes:
+\*   "Upd" [f, end]              TokenID = token of feeder f, EndBlock = end, nothing else set
+\*   "Add" [tok, start, iv, sr]  TokenID, StartBaseBlock, Interval, StartRoundID set, EndBlock = 0
+IdsOf(fd, tok) == {i \in DOMAIN FORD : fd[FORD[i]].tok = tok}
+LatestOf(fd, tok) == FORD[Max(IdsOf(fd, tok))]
+NextFree(fd) == LET A == {i \in DOMAIN FORD : ~Present(fd, FORD[i])} IN IF A = {} THEN "" ELSE FORD[Min(A)]
+\* Params.Validate, the token-feeder part (feeders in id order; one chain of feeders per token)
+ValidFeeders(fd, mn) ==
+  \A i \in DOMAIN FORD :
+    LET f == FORD[i] x == fd[f] IN
+    Present(fd, f) =>
+      /\ x.sr >= 1 /\ x.iv >= 1 /\ x.start >= 1
+      /\ (x.end > 0 => x.start < x.end /\ (x.end - x.start) % x.iv >= mn)
+      /\ x.iv >= 2 * mn
+      /\ LET P == {j \in IdsOf(fd, x.tok) : j < i} IN
+         P # {} => LET p == fd[FORD[Max(P)]] IN
+                   p.end # 0 /\ p.end < x.start /\ x.sr = p.sr + (p.end - p.start) \div p.iv + 1
+SetFeeders(S, fd) ==
+  IF ~ValidFeeders(fd, S.c.mn) THEN [st |-> S, err |-> "invalid params"]
+  ELSE [st |-> [S EXCEPT !.kfd = fd, !.cfd = fd, !.cpu = TRUE], err |-> ""]
+
 UpdateParams(S, a) ==
   LET h  == S.h
-      tf == S.kfd[a.f]
+      f  == LatestOf(S.kfd, S.kfd[a.f].tok)
+      tf == S.kfd[f]
       bad == IF tf.start > h THEN a.end = 0 \/ a.end <= h           \* not started yet: EndBlock must lie in the future
              ELSE IF tf.end = 0 \/ tf.end > h THEN a.end = 0 \/ a.end <= h   \* running
-             ELSE TRUE                                             \* stopped: only a new feeder may follow (not in the alphabet)
-      nf == [tf EXCEPT !.end = a.end]
-      invalid == nf.end > 0 /\ (nf.start >= nf.end \/ (nf.end - nf.start) % nf.iv < S.c.mn)
-  IN IF bad THEN [st |-> S, err |-> "invalid tokenFeeder to update"]
-     ELSE IF invalid THEN [st |-> S, err |-> "invalid params"]
-     ELSE LET fd == [S.kfd EXCEPT ![a.f] = nf] IN [st |-> [S EXCEPT !.kfd = fd, !.cfd = fd, !.cpu = TRUE], err |-> ""]
+             ELSE TRUE                                             \* stopped: StartBaseBlock (0) <= height
+  IN IF ~Present(S.kfd, a.f) \/ bad THEN [st |-> S, err |-> "invalid tokenFeeder to update"]
+     ELSE SetFeeders(S, [S.kfd EXCEPT ![f].end = a.end])
+
+AddFeeder(S, a) ==
+  LET h == S.h
+      nf == [tok |-> a.tok, start |-> a.start, iv |-> a.iv, sr |-> a.sr, end |-> 0]
+  IN IF IdsOf(S.kfd, a.tok) = {} THEN
+       \* first feeder of the token: appended as it is
+       IF NextFree(S.kfd) = "" THEN [st |-> S, err |-> "out of model: no free feeder id"]
+       ELSE SetFeeders(S, [S.kfd EXCEPT ![NextFree(S.kfd)] = nf])
+     ELSE
+       LET f == LatestOf(S.kfd, a.tok) tf == S.kfd[f] IN
+       IF tf.start > h THEN
+         \* latest feeder not started yet: its start block and interval are replaced (the round id is not)
+         IF a.start <= h THEN [st |-> S, err |-> "invalid StartBaseBlock"]
+         ELSE SetFeeders(S, [S.kfd EXCEPT ![f].start = a.start, ![f].iv = a.iv])
+       ELSE IF tf.end = 0 \/ tf.end > h THEN [st |-> S, err |-> "invalid EndBlock"]   \* running: only EndBlock may be set
+       ELSE
+         \* latest feeder stopped: a new feeder resumes the token with the next round id
+         IF a.start <= h \/ a.sr # tf.sr + (tf.end - tf.start) \div tf.iv + 1 THEN [st |-> S, err |-> "invalid StartBaseBlock or StartRoundID"]
+         ELSE IF NextFree(S.kfd) = "" THEN [st |-> S, err |-> "out of model: no free feeder id"]
+         ELSE SetFeeders(S, [S.kfd EXCEPT ![NextFree(S.kfd)] = nf])
 
 (***************************************************************************)
 (* entry point table                                                        *)
@@ -500,6 +542,7 @@ Apply(S, ev, a) ==
   ELSE IF ev = "EndBlock" THEN
     LET E == EndBlock(S, a.vu) IN IF a.restart THEN Recache(E) ELSE [st |-> E, err |-> ""]
   ELSE IF ev = "Upd" THEN UpdateParams(S, a)
+  ELSE IF ev = "Add" THEN AddFeeder(S, a)
   ELSE [st |-> S, err |-> "unknown event"]
 
 (***************************************************************************)
@@ -508,7 +551,7 @@ Apply(S, ev, a) ==
 \* index of the round of feeder f whose window contains block h (blocks base+1 .. base+mn)
 RoundIdx(c, f, h) == (h - 1 - c.fd[f].start) \div c.fd[f].iv
 
-FeederLive(c, f, hh) == hh >= c.fd[f].start /\ (c.fd[f].end = 0 \/ hh < c.fd[f].end)
+FeederLive(c, f, hh) == Present(c.fd, f) /\ hh >= c.fd[f].start /\ (c.fd[f].end = 0 \/ hh < c.fd[f].end)
 
 \* NoGaps, evaluated right after the EndBlock of height hh (DESIGN 5/C12): the stored next round
 \* id of the feeder's token as a function of the height alone
